@@ -178,8 +178,9 @@ CHECKS = {
     "C12": {
         "module": "Vanguard.Props.C12",
         "namespace": "Vanguard.C12",
-        "streams": ["timeout"],
-        "partial": "REST X-Server-Timeout legs (float64 arithmetic) are outside the Lean model",
+        "streams": ["timeout", "e2e"],
+        "partial": "REST X-Server-Timeout legs (float64 arithmetic) are outside the Lean model; that a client's timeout reaches the backend of every "
+                   "protocol pairing (operation.validate, addProtocolRequestHeaders) is the e2e correspondence plus oracleC12, not a theorem",
         "assumptions": [
             "strconv.ParseInt/FormatInt are modelled explicitly (Model/Decimal.lean) and cross-checked by the parse_int64/format_int ops",
         ],
